@@ -522,6 +522,10 @@ fn gen_shortcut_raw(rng: &mut Rng, cfg: &GenCfg) -> Node {
     let tail = |rng: &mut Rng| gen_pattern(rng, &sub);
     let ch = |rng: &mut Rng| Node::Char(*rng.pick(&cfg.alphabet));
     let single = |rng: &mut Rng| -> Node {
+        if cfg.props && rng.chance(1, 8) {
+            // a bare category escape: its first-character set is not closed under case
+            return Node::Prop(rng.chance(3, 4), rng.pick(&["Lu", "Ll", "L", "Nd", "Lt"]).to_string());
+        }
         match rng.below(4) {
             0 => Node::Dot,
             1 => {
@@ -553,9 +557,18 @@ fn gen_shortcut_raw(rng: &mut Rng, cfg: &GenCfg) -> Node {
         // X*Y with related / unrelated / anchor followers -> unambiguous-repeat rewrite
         3 | 4 => {
             let x = single(rng);
-            let y = match rng.below(9) {
+            let y = match rng.below(10) {
                 0 => Node::Bol,
                 1 => Node::Eol,
+                // a plain alternation of single terms (its first-character set is the union of the
+                // branches', under flag i including their case variants)
+                9 => {
+                    let mut v = vec![single(rng), single(rng)];
+                    if rng.chance(1, 3) {
+                        v.push(single(rng));
+                    }
+                    Node::NcGroup(Box::new(Node::Alt(v)))
+                }
                 // an alternation one of whose branches may or may not start with the repeated term:
                 // an optional (greedy or reluctant) lead-in followed by the repeated term itself
                 8 => {
@@ -608,8 +621,15 @@ fn gen_shortcut_raw(rng: &mut Rng, cfg: &GenCfg) -> Node {
         // fixed-count repeats / long minimum lengths
         5 => {
             let n = 1 + rng.below(4);
-            let b = single(rng);
-            Node::Cat(vec![Node::Repeat { body: Box::new(b), min: n, max: Some(n + rng.below(2)), greedy: true, spell: 1 }, ch(rng), ch(rng)])
+            // one character, or a fixed-length cluster of two (give-back then goes in steps of two)
+            let b = if rng.chance(1, 2) { single(rng) } else { Node::NcGroup(Box::new(Node::Cat(vec![ch(rng), ch(rng)]))) };
+            let rep = Node::Repeat { body: Box::new(b.clone()), min: n, max: Some(n + rng.below(2)), greedy: true, spell: 1 };
+            if rng.chance(1, 2) {
+                // followed by the repeated term itself: giving back below the minimum would still match
+                Node::Cat(vec![rep, b])
+            } else {
+                Node::Cat(vec![rep, ch(rng), ch(rng)])
+            }
         }
         // nested sequences feeding preconditions: group / repeat first, literal later
         6 => {
